@@ -5,7 +5,7 @@ given" (and raise for arrays).  On the reference tree every truthiness test of a
 is a bool; the rule instance count for None-defaulted parameters is zero, the self-test keeps positive examples."""
 import ast
 
-from .terms import walk_terms
+from .terms import T, walk_terms
 from .walk import cond_polarity, strip_views, norm_stmt
 
 
@@ -258,4 +258,41 @@ def check_axisless_squeeze(run, A, module_prefixes, rule='R-ELL'):
                       f'`{norm_stmt(e.term.node)[:90]}` removes every axis of length one: with a single constraint / source / bin the layout the following code relies on is gone',
                       construct=f'{rule}::{fn.qual}::axisless-squeeze')
     run.count('squeeze calls examined', n)
+    return n
+
+
+def check_none_use(run, A, module_prefixes, rule='R-NONE'):
+    """inside the branch where `x is None` holds, x is not used as a value: indexing it, arithmetic with it or handing it to einsum raises a
+    TypeError on exactly the inputs that take this branch (a flipped `is None` / `is not None` passes every test that never takes it)"""
+    from .walk import is_call_to, call_parts
+    n = 0
+    for fn in A.prog.all_funcs():
+        if not any(fn.mod.name == p.rstrip('.') or fn.mod.name.startswith(p) for p in module_prefixes):
+            continue
+        g = A.graphs.get(fn)
+        seen = set()
+        reported = set()
+
+        def is_none_value(x):
+            while isinstance(x, T) and x.op == 'refine' and x.args[1] != 'isnone':
+                x = x.args[0]
+            return isinstance(x, T) and x.op == 'refine' and x.args[1] == 'isnone'
+        for r in [g.ret] + [e.term for e in g.events if e.term is not None]:
+            for t in walk_terms(r, seen):
+                bad = None
+                if t.op in ('binop', 'iop') and (is_none_value(t.args[1]) or is_none_value(t.args[2])):
+                    bad = t
+                elif t.op == 'sub' and is_none_value(t.args[0]):
+                    bad = t
+                elif t.op == 'attr' and is_none_value(t.args[0]) and t.args[1] not in ('__class__',):
+                    bad = t
+                elif t.op == 'call' and is_call_to(t, 'numpy.einsum', 'numpy.sum', 'numpy.maximum', 'numpy.abs') and any(is_none_value(a) for a in call_parts(t)[1]):
+                    bad = t
+                if t.op in ('binop', 'iop', 'sub', 'attr'):
+                    n += 1
+                if bad is not None and getattr(bad.node, 'lineno', None) not in reported:
+                    reported.add(getattr(bad.node, 'lineno', None))
+                    run.violation(rule, f'{fn.qual.split("::")[1]}: a value known to be None is used', fn.loc(bad.node),
+                                  f'`{norm_stmt(bad.node)[:90]}` operates on a name in the branch where it was just tested to be None', construct=f'{rule}::{fn.qual}::none-use')
+    run.count('operations examined for use of a value known to be None', n)
     return n
